@@ -10,7 +10,7 @@ from pymemcache.client.murmur3 import murmur3_32
 
 PROPERTY = "C14"
 LEVEL = "exploration"
-RULE_THREADS = (" Two threads: each hashes its own string while the other is pre-empted at every bytecode of the hash function (deterministic scheduler, one pre-emption per run; thorough: two) - every call still returns the reference value (the function is a pure function of its arguments, also under concurrency).")
+RULE_THREADS = (" Instances of str subclasses (a plain subclass, one overriding __str__/__repr__/__format__, a str-valued Enum member) hash as their characters. Two threads: each hashes its own string while the other is pre-empted at every bytecode of the hash function (deterministic scheduler, one pre-emption per run; thorough: two) - every call still returns the reference value (the function is a pure function of its arguments, also under concurrency).")
 RULE = ("cases are (string, 32-bit seed); enumerated: published vectors, every string of length 0-3 "
         "(thorough: 0-3 over a larger alphabet, 4-5 over reduced ones) over representative code points "
         "incl. 0x00,0x7f,0x80,0xff x seeds {0,1,2^31,2^32-1}; Hypothesis: every length 0..64 over code "
@@ -131,6 +131,58 @@ def every_length_cases(tier, seed):
             yield ("".join(cs), SEEDS[r % 4] if r % 2 == 0 else (x * 2 + 1) & 0xFFFFFFFF)
 
 
+# ---- strings that are instances of str subclasses ----------------------------------------------------------------
+
+class Plain(str):
+    pass
+
+
+class Loud(str):
+    def __str__(self):
+        return "LOUD:" + str.upper(self)
+
+    def __repr__(self):
+        return "Loud(%s)" % str.__repr__(self)
+
+    def __format__(self, spec):
+        return "formatted"
+
+
+import enum  # noqa: E402
+
+
+class Shard(str, enum.Enum):
+    A = "shard-a"
+    B = "\xe9\xff\x00"
+
+
+def subclass_cases(tier, seed):
+    contents = ["", "a", "abcd", "hello-abc", "\xff\x80\x00\x01tail", "node-1:11211-key", "k" * 33]
+    for c in contents:
+        for sd in (0, 1, 2**31, 2**32 - 1):
+            for kind in ("plain", "loud"):
+                yield (kind, c, sd)
+    for m in ("A", "B"):
+        for sd in (0, 7, 2**32 - 1):
+            yield ("enum", m, sd)
+
+
+def check_subclass(case):
+    """a string is its characters, whatever its class prints as"""
+    kind, c, seed = case
+    s = Plain(c) if kind == "plain" else Loud(c) if kind == "loud" else Shard[c]
+    content = str.__str__(s) if kind != "enum" else s.value
+    want = refhash.murmur3(refhash.latin1(content), seed)
+    try:
+        got = murmur3_32(s, seed)
+    except Exception as e:  # noqa: BLE001
+        raise Violation(["subclass", "raises", type(e).__name__], "murmur3_32(%s instance %r, %#x) raised %r" % (type(s).__name__, content, seed, e))
+    if got != want:
+        raise Violation(["subclass", "differs-from-reference"], "murmur3_32 of the %s instance with content %r (seed %#x) = %r, reference for these characters %#010x (plain str: %#010x)"
+                        % (type(s).__name__, content, seed, got, want, murmur3_32(content, seed)))
+    return True, ["subclass", kind]
+
+
 # ---- callers in several threads ---------------------------------------------------------------------------------
 
 PAIRS = [("hello-abc", "xyzzy"), ("abcd", "0123456789abc"), ("", "seven77"), ("\xff\x80\x00\x01tail", "\xe9" * 6), ("k" * 33, "k" * 34), ("node-1:11211-key", "node-2:11211-key")]
@@ -183,6 +235,7 @@ def check_threads(case):
 
 
 PARTS = [
+    Part("str-subclasses", "enum", check_subclass, cases=subclass_cases, shards={"quick": 1, "thorough": 1}, exhaustive=True),
     Part("two-threads", "enum", check_threads, cases=thread_cases, exhaustive=True),
     Part("vectors", "enum", check_vector, cases=vector_cases, shards={"quick": 1, "thorough": 1}, exhaustive=True),
     Part("short-exhaustive", "enum", check, cases=short_cases, exhaustive=True),
